@@ -16,10 +16,14 @@ pred pc(A, A, A);
 func f(A) -> A;
 func g(A, A) -> A;
 func c() -> A;
+enum E { Ca(A), Cb(A, A), Cz() }
+pred pe(E);
 """
 
 # symbol -> (kind, number of columns of its relation)
 SYMS = {"pa": ("pred", 1), "pb": ("pred", 2), "pc": ("pred", 3), "f": ("func", 2), "g": ("func", 3), "c": ("func", 1)}
+# symbols that only the match rendering uses (not part of the enumerated premises)
+EXTRA_SYMS = {"pe": ("pred", 1), "Ca": ("func", 2), "Cb": ("func", 3), "Cz": ("func", 1)}
 VARS = ["x", "y", "z", "w", "u", "v"]
 
 
@@ -81,6 +85,9 @@ class GenRule:
             kind = 1
         concl_uses = {0: [first], 1: [first, second], 2: [first, second], 3: [first]}[kind]
         branched = self.idx % 7 == 3 and kind in (0, 1)
+        matched = self.idx % 7 == 5 and kind in (0, 1)
+        if matched:
+            concl_uses = [first, first, second]
         if branched:
             concl_uses = [first, first, first, first, second, first, first, second]
         # occurrence counts decide wildcards
@@ -163,6 +170,19 @@ class GenRule:
                        1: ["then pb(%s, %s);" % (name[first], name[second])],
                        2: ["then %s = %s;" % (name[first], name[second])],
                        3: ["then n := f(%s)!;" % name[first], "then pa(n);"]}[kind]
+        self.matched = False
+        if matched:
+            # Surface syntax: a match statement over an enum element; each case adds the graph atom of its constructor.
+            self.matched = True
+            lines += ["if pe(me);", "match me {", "    Ca(ma) => { then pa(ma); }", "    Cb(ma, mb) => { then pb(ma, mb); }",
+                      "    Cz() => { then pc(%s, %s, %s); }" % (name[first], name[first], name[second]), "}"]
+            self.text = "rule %s {\n    %s\n}\n" % (self.name, "\n    ".join(lines))
+            base = flat_premise + [("pe", ["me"])]
+            self.stages = (expected_stages(base + [("Ca", ["ma", "me"])], eq, 5, "ma", "ma")
+                           + expected_stages(base + [("Cb", ["ma", "mb", "me"])], eq, 6, "ma", "mb")
+                           + expected_stages(base + [("Cz", ["me"])], eq, 4, first, second))
+            self.branched = False
+            return
         self.branched = False
         if branched:
             # Surface syntax: a branch statement with two blocks followed by a statement after the branch. Each block continues
@@ -183,7 +203,7 @@ class GenRule:
 
     def to_json(self):
         return {"name": self.name, "atoms": list(self.atoms), "assignment": list(self.assignment), "concl_kind": self.concl_kind,
-                "with_eq": self.with_eq, "nested": self.nested, "branched": self.branched, "stages": self.stages, "text": self.text}
+                "with_eq": self.with_eq, "nested": self.nested, "branched": self.branched, "matched": self.matched, "stages": self.stages, "text": self.text}
 
 
 class _UF:
@@ -214,7 +234,7 @@ def _congruence(uf, atoms):
         changed = False
         seen = {}
         for rel, args in atoms:
-            if SYMS[rel][0] != "func":
+            if (SYMS.get(rel) or EXTRA_SYMS[rel])[0] != "func":
                 continue
             key = (rel, tuple(uf.find(a) for a in args[:-1]))
             r = uf.find(args[-1])
@@ -262,6 +282,12 @@ def expected_stages(flat_premise, eq, kind, first, second):
         st(prem, [] if c in prem else [c])
     elif kind == 4:
         c = ("pc", (f1, f1, f2))
+        st(prem, [] if c in prem else [c])
+    elif kind == 5:
+        c = ("pa", (f1,))
+        st(prem, [] if c in prem else [c])
+    elif kind == 6:
+        c = ("pb", (f1, f2))
         st(prem, [] if c in prem else [c])
     elif kind == 2:
         uf2 = _UF()
